@@ -266,3 +266,46 @@ Example C20_override_nonvacuous :
   (exists s st, schema_fuel (digest_tab EP) (mkcfg false "#") 2 (TClass "Inv") [] = SOk (s, st) /\ meta_ok (render s) = true) /\
   schema_fuel (digest_tab EP) (mkcfg false "#") 2 (TClass "Bare") [] = SErr.
 Proof. split; [reflexivity|]. split; [eexists _, _; split; [vm_compute; reflexivity|vm_compute; reflexivity]|reflexivity]. Qed.
+
+(* ---- the default VALUE of a property: the reference serialization (TyModel.ref_enc, the lead's model of to_dict)
+        of the value under the field's type, through the embedding sty_of of this grammar; None is always null ---- *)
+From Verif Require Core TyModel.
+From Verif Require Import SchemaDefault.
+
+Theorem C20_default_value_is_ref_enc : forall tab t v,
+  render_default tab t v =
+  match v with
+  | Core.VNone => Some JNull
+  | _ => match sty_of t with
+         | Some st => match TyModel.ref_enc [] (prims_of tab) v st with Core.Ok w => js_of_pv w | Core.Exn _ => None end
+         | None => None end
+  end.
+Proof. intros tab t v. destruct v; reflexivity. Qed.
+Print Assumptions C20_default_value_is_ref_enc.
+
+Theorem C20_default_prerendered : forall tab vals c r v,
+  find_val c (r_name r) vals = Some v ->
+  r_def (prerender_field tab vals c r) =
+    match render_default tab (r_ty r) v with Some j => RDefault j | None => RFactory end /\
+  r_ty (prerender_field tab vals c r) = r_ty r /\ r_name (prerender_field tab vals c r) = r_name r /\
+  r_init (prerender_field tab vals c r) = r_init r.
+Proof. exact prerender_field_spec. Qed.
+Print Assumptions C20_default_prerendered.
+
+Theorem C20_default_scalars : forall tab,
+  (forall z, render_default tab TInt (Core.VInt z) = Some (JInt z)) /\
+  (forall b, render_default tab TBool (Core.VBool b) = Some (JBool b)) /\
+  (forall s, render_default tab TStr (Core.VStr s) = Some (JStr s)) /\
+  (forall t, render_default tab t Core.VNone = Some JNull) /\
+  (forall k w fmt pat tp, render_default tab (TLeaf tp fmt pat) (Core.VLeaf k w) = Some (JStr w)).
+Proof. exact render_scalar. Qed.
+Print Assumptions C20_default_scalars.
+
+Example C20_default_nonvacuous :
+  let ER := [("D", mkrcls [] None None [] []
+                 [mkrfld "t" None None (TTuple [TInt; TEnum false [JStr "a"; JInt 2]]) false true RFactory None None None;
+                  mkrfld "o" None None (TClass "D") false true RFactory None None None])] in
+  let vals := [("D", ("t", Core.VTuple [Core.VInt 0; Core.VEnum "enum" "A"])); ("D", ("o", Core.VNone))] in
+  match lookup "D" (digest_tab (prerender [("A", Core.VStr "a")] vals ER)) with
+  | Some fs => map f_default fs | None => [] end = [Some (JArr [JInt 0; JStr "a"]); Some JNull].
+Proof. reflexivity. Qed.
